@@ -476,7 +476,7 @@ def check_mesh_tables(obs, model, out, oems, selection, saved_path):
                 continue
             da = out[vname]
             t = e['tables'][key]
-            want_dims = (primary[key], e['max_dim'] if key.startswith('face') else 'Two')
+            want_dims = (primary[key], e['max_dim'] if key.startswith('face') else e.get('two_dim', 'Two'))
             if t['transposed']:
                 want_dims = want_dims[::-1]
             obs.expect(tuple(da.dims) == want_dims, 'connectivity variable keeps its dimension order',
